@@ -3,6 +3,7 @@ CONSTANTS
   MaxOps = 1
   Deviations <- DevCsumBeforePatch
   JunkBytes <- MCJunk
+  RegistryOps = FALSE
 CHECK_DEADLOCK FALSE
 VIEW ViewNoHist
 INVARIANT FramesRight
